@@ -316,6 +316,47 @@ def make_refusal(lf):
     return 'refuse_%d' % lf, cell
 
 
+def make_refusal_replace(lf):
+    """A call that REPLACES a non-empty range with a token that lives elsewhere (later in the same store, or at any place
+    of another store - also at a position that coincides with the replaced range) must be refused, and both stores
+    must be exactly as before: same tokens, every handle valid, every query answering."""
+    def cell(n: int, a: int, b: int, which: int, other: bool, api_kind: int) -> None:
+        assert 3 <= n <= 7 and 0 <= a <= b < n and 0 <= which < n and 0 <= api_kind <= 2
+        set_load_factor(lf)
+        n, a, b = pick(n, 3, 7), pick(a, 0, 6), pick(b, 0, 6)
+        which, other, api_kind = pick(which, 0, 6), bool(pick(other, 0, 1)), pick(api_kind, 0, 2)
+        toks = [SizedToken(0, 1, 't%d' % i) for i in range(n)]
+        store = ts.TokenStore.from_tokens(list(toks))
+        toks2 = [SizedToken(0, 1, 'u%d' % i) for i in range(n)]
+        store2 = ts.TokenStore.from_tokens(list(toks2))
+        if other:
+            donor = toks2[which]
+        else:
+            if a <= which <= b:
+                return          # re-using a token of the replaced range itself is allowed
+            donor = toks[which]
+        fresh = SizedToken(0, 1, 'f')
+        try:
+            if api_kind == 0:
+                if a != b:
+                    return
+                store.replace(toks[a], donor)
+            elif api_kind == 1:
+                store.splice([donor], toks[a], toks[b])
+            else:
+                store.splice([fresh, donor], toks[a], toks[b])
+        except ValueError:
+            invariant(store, toks)
+            api(store, toks)
+            invariant(store2, toks2)
+            api(store2, toks2)
+            check(fresh.store_handle is None, 'a free token of the refused batch was consumed')
+            return
+        raise Fail('a token that already lives %s was accepted by a replacing call' % ('in another store' if other else 'elsewhere in the store'))
+
+    return 'refuse_replace_%d' % lf, cell
+
+
 def lemma_position_assoc(a: int, b: int, c: int, d: int, e: int, f: int) -> None:
     assert a >= 0 and b >= 0 and c >= 0 and d >= 0 and e >= 0 and f >= 0
     p, q, r = Position(a, b), Position(c, d), Position(e, f)
@@ -406,7 +447,10 @@ for _n in range(5, 12):
     _reg(make_from_tokens(4, _n, 2), {'C07': T, 'C08': T}, 900, 'from_tokens', 'lf=4, from_tokens(%d tokens) then one op, k<=2' % _n)
 _reg(make_from_tokens(2, 7, 1, twin=True), {'C07': Q}, 120, 'from_tokens', 'vacuity twin', twin=True, cost=1)
 _reg(make_step(2, (2, 3, 2), 2, 0, 'all', twin=True), {'C07': Q}, 120, 'step/structure', 'vacuity twin', twin=True, cost=1)
-_reg(make_refusal(2), {'C07': Q}, 120, 'refusal', 'lf=2 n<=5: inserting a token already in the store', cost=5)
+_reg(make_refusal(2), {'C07': Q, 'C19': Q}, 120, 'refusal', 'lf=2 n<=5: inserting a token already in the store', cost=5)
+for _lf in (2, 3):
+    _reg(make_refusal_replace(_lf), {'C07': Q, 'C19': Q}, 600, 'refusal', 'lf=%d, n<=7: replace / splice of a symbolic non-empty range by a token living later in the same store or anywhere in another store '
+         '(also at a coinciding position): refused, both stores exactly as before' % _lf, cost=60)
 
 # --- C08: positions with newline-bearing tokens (symbolic extents) ---------------------------------------------
 for _m in (1, 2, 3):
